@@ -59,9 +59,9 @@ theorem readBlocks_length : ∀ (fuel : Nat) (plain : Array Nat) (bs : Bits)
           simp only [List.length_cons] at this ⊢
           omega
 
-/-- a stream of fewer than 2^29 bytes has fewer than 2^32 blocks -/
-theorem parse_blocks_length (d : List UInt8) (hd : d.length < 2 ^ 29) (p : Parsed)
-    (hp : parse d = .ok p) : p.blocks.length ≤ 2 ^ 32 := by
+/-- a stream of fewer than 2^61 bytes has fewer than 2^64 blocks -/
+theorem parse_blocks_length (d : List UInt8) (hd : d.length < 2 ^ 61) (p : Parsed)
+    (hp : parse d = .ok p) : p.blocks.length ≤ 2 ^ 64 := by
   have hl := length_bytesToBits d
   unfold parse parseBits at hp
   cases h1 : readBlocks ((bytesToBits d).length + 1) #[] (bytesToBits d) with
@@ -86,7 +86,7 @@ theorem bytes_of_ops (mk : Params → Pred H) (plain : Array Nat) (ops : List Op
     (hwf : ∀ o ∈ ops, o.WF) (bytes : Array UInt8) (he : encodeBytes ops = .ok bytes)
     (rp : Params) (rest : List Op) (h1 : readParams ops = .ok (rp, rest))
     (blocks : List Block) (pad : Nat) (rest' : List Op)
-    (h2 : decStream (mk rp) plain rest = .ok (blocks, pad, rest')) (hlen : blocks.length ≤ 2 ^ 32) :
+    (h2 : decStream (mk rp) plain rest = .ok (blocks, pad, rest')) (hlen : blocks.length ≤ 2 ^ 64) :
     ∃ st st', readParamsS byteSrc (BSt.init bytes) = .ok (rp, st) ∧
       decStreamS byteSrc (mk rp) plain st = .ok (blocks, pad, st') ∧ RelB bytes rest' st' := by
   have hS := srcSim_list_byte bytes
@@ -108,12 +108,12 @@ theorem recompressBytes_of_ops (mk : Params → Pred H) (plain : Array Nat) (ops
     (hwf : ∀ o ∈ ops, o.WF) (bytes : Array UInt8) (he : encodeBytes ops = .ok bytes)
     (rp : Params) (rest : List Op) (h1 : readParams ops = .ok (rp, rest))
     (blocks : List Block) (pad : Nat) (rest' : List Op)
-    (h2 : decStream (mk rp) plain rest = .ok (blocks, pad, rest')) (hlen : blocks.length ≤ 2 ^ 32) :
+    (h2 : decStream (mk rp) plain rest = .ok (blocks, pad, rest')) (hlen : blocks.length ≤ 2 ^ 64) :
     recompressBytes mk plain bytes = writeStream blocks pad ∧
     recompressStream mk plain ops = writeStream blocks pad := by
   obtain ⟨st, st', e1, e2, _⟩ := bytes_of_ops mk plain ops hwf bytes he rp rest h1 blocks pad rest' h2 hlen
   constructor
-  · show recompressBytesWithin (2 ^ 32) mk plain bytes = _
+  · show recompressBytesWithin (2 ^ 64) mk plain bytes = _
     unfold recompressBytesWithin
     show (do
       let (rp, st) ← readParamsS byteSrc (BSt.init bytes)
@@ -127,7 +127,7 @@ theorem verifyBytes_of_ops (mk : Params → Pred H) (params : Params) (plain : A
     (hwf : ∀ o ∈ ops, o.WF) (bytes : Array UInt8) (he : encodeBytes ops = .ok bytes)
     (rp : Params) (rest : List Op) (h1 : readParams ops = .ok (rp, rest))
     (blocks : List Block) (pad : Nat) (rest' : List Op)
-    (h2 : decStream (mk rp) plain rest = .ok (blocks, pad, rest')) (hlen : blocks.length ≤ 2 ^ 32)
+    (h2 : decStream (mk rp) plain rest = .ok (blocks, pad, rest')) (hlen : blocks.length ≤ 2 ^ 64)
     (expected : List UInt8) :
     verifyBytes mk params plain bytes expected = verifyStream mk params plain ops expected := by
   obtain ⟨st, st', e1, e2, _⟩ := bytes_of_ops mk plain ops hwf bytes he rp rest h1 blocks pad rest' h2 hlen
@@ -138,16 +138,16 @@ theorem verifyBytes_of_ops (mk : Params → Pred H) (params : Params) (plain : A
 
 /-- everything a successful analysis provides, in one place -/
 theorem analysis_facts (est : Array Nat → List Block → R Params) (mk : Params → Pred H)
-    (hb : ∀ q, PredBounded (mk q)) (d : List UInt8) (hd : d.length < 2 ^ 29)
+    (hb : ∀ q, PredBounded (mk q)) (d : List UInt8) (hd : d.length < 2 ^ 61)
     (hest : ∀ p, parse d = .ok p → ∀ q, est p.plain p.blocks = .ok q → EstimatorRange q)
     (r : StreamResult) (h : decompressStream est mk false d = .ok r) :
     (∀ o ∈ r.corr, o.WF) ∧ ∃ rest blocks pad,
       readParams r.corr = .ok (r.params, rest) ∧
-      decStream (mk r.params) r.plain rest = .ok (blocks, pad, []) ∧ blocks.length ≤ 2 ^ 32 ∧
+      decStream (mk r.params) r.plain rest = .ok (blocks, pad, []) ∧ blocks.length ≤ 2 ^ 64 ∧
       writeStream blocks pad = .ok (d.take r.size) := by
   obtain ⟨p, params, hdr, body, h1, h2, h3, h4, rfl⟩ := decompressStream_ok h
   have hl := length_bytesToBits d
-  obtain ⟨hv, hpad⟩ := parse_valid (bytesToBits d) (by omega) p h1
+  obtain ⟨hv, hpad⟩ := parse_valid_unbounded (bytesToBits d) p h1
   obtain ⟨ops, e1, e2, hwf1⟩ := readParams_writeParams params
     (estimatorRange_wf params (hest p h1 _ h2)) body
   rw [h3] at e1
@@ -209,7 +209,7 @@ theorem recompressBytes_decompressBytes (est : Array Nat → List Block → R Pa
     (hest : ∀ p, parse d = .ok p → ∀ q, est p.plain p.blocks = .ok q → EstimatorRange q)
     (plain : Array Nat) (bytes : Array UInt8) (n : Nat) (q : Params)
     (h : decompressBytes est mk verify d = .ok (plain, bytes, n, q))
-    (hd : d.length < 2 ^ 29) :
+    (hd : d.length < 2 ^ 61) :
     recompressBytes mk plain bytes = .ok (d.take n) := by
   obtain ⟨r, h1, h2, rfl, rfl, rfl, _⟩ := decompressBytes_ok h
   obtain ⟨hwf, rest, blocks, pad, e1, e2, e3, e4⟩ := analysis_facts est mk hb d hd hest r h1
@@ -219,7 +219,7 @@ theorem recompressBytes_decompressBytes (est : Array Nat → List Block → R Pa
 /-- the byte-level verify block passes whenever the analysis succeeded: both verify settings of
     `decompressBytes` return the same result -/
 theorem decompressBytes_verify_same (est : Array Nat → List Block → R Params) (mk : Params → Pred H)
-    (hb : ∀ q, PredBounded (mk q)) (d : List UInt8) (hd : d.length < 2 ^ 29)
+    (hb : ∀ q, PredBounded (mk q)) (d : List UInt8) (hd : d.length < 2 ^ 61)
     (hest : ∀ p, parse d = .ok p → ∀ q, est p.plain p.blocks = .ok q → EstimatorRange q)
     (plain : Array Nat) (bytes : Array UInt8) (n : Nat) (q : Params) :
     decompressBytes est mk true d = .ok (plain, bytes, n, q) ↔
@@ -240,7 +240,7 @@ theorem decompressBytes_verify_same (est : Array Nat → List Block → R Params
 /-- `decompressBytes` (verification from the BYTES) = `decompressStream` (verification from the
     operations) followed by `encodeBytes`, with the same verify setting -/
 theorem decompressBytes_iff_stream (est : Array Nat → List Block → R Params) (mk : Params → Pred H)
-    (hb : ∀ q, PredBounded (mk q)) (verify : Bool) (d : List UInt8) (hd : d.length < 2 ^ 29)
+    (hb : ∀ q, PredBounded (mk q)) (verify : Bool) (d : List UInt8) (hd : d.length < 2 ^ 61)
     (hest : ∀ p, parse d = .ok p → ∀ q, est p.plain p.blocks = .ok q → EstimatorRange q)
     (plain : Array Nat) (bytes : Array UInt8) (n : Nat) (q : Params) :
     decompressBytes est mk verify d = .ok (plain, bytes, n, q) ↔
@@ -345,12 +345,12 @@ theorem decStreamS_within (n m : Nat) (hnm : n ≤ m) (P : Pred H) (plain : Arra
 
 /-- the budgeted run the driver executes IS `recompressBytes` whenever it answers (Ok, Err or panic —
     anything but "out of fuel") -/
-theorem recompressBytesWithin_eq (n : Nat) (hn : n ≤ 2 ^ 32) (mk : Params → Pred H) (plain : Array Nat)
+theorem recompressBytesWithin_eq (n : Nat) (hn : n ≤ 2 ^ 64) (mk : Params → Pred H) (plain : Array Nat)
     (bytes : Array UInt8) (h : recompressBytesWithin n mk plain bytes ≠ .error .fuel) :
     recompressBytes mk plain bytes = recompressBytesWithin n mk plain bytes := by
   unfold recompressBytes
   unfold recompressBytesWithin at h ⊢
-  rw [readParamsS_within (2 ^ 32) n]
+  rw [readParamsS_within (2 ^ 64) n]
   cases h1 : readParamsS (byteSrcWithin n) (BSt.init bytes) with
   | error e => rfl
   | ok x =>
@@ -359,20 +359,20 @@ theorem recompressBytesWithin_eq (n : Nat) (hn : n ≤ 2 ^ 32) (mk : Params → 
     simp only [bind, Except.bind] at h ⊢
     have hne : decStreamS (byteSrcWithin n) (mk rp) plain st ≠ .error .fuel := by
       intro he; rw [he] at h; exact h rfl
-    rw [decStreamS_within n (2 ^ 32) hn (mk rp) plain st hne]
+    rw [decStreamS_within n (2 ^ 64) hn (mk rp) plain st hne]
 
 /-- CONCRETE: the modelled estimator `Est.estimate` and the executable predictor family `Chains.pred`;
     no hypothesis left on either -/
 theorem public_bytes_exact (verify : Bool) (d : List UInt8)
     (plain : Array Nat) (bytes : Array UInt8) (n : Nat) (q : Params)
     (h : decompressBytes Est.estimate Chains.pred verify d = .ok (plain, bytes, n, q))
-    (hd : d.length < 2 ^ 29) :
+    (hd : d.length < 2 ^ 61) :
     recompressBytes Chains.pred plain bytes = .ok (d.take n) :=
   recompressBytes_decompressBytes Est.estimate Chains.pred chains_pred_bounded verify d
     (estimate_in_range_parsed d) plain bytes n q h hd
 
 /-- CONCRETE: both verify settings of the byte-level public function return the same result -/
-theorem public_bytes_verify_same (d : List UInt8) (hd : d.length < 2 ^ 29)
+theorem public_bytes_verify_same (d : List UInt8) (hd : d.length < 2 ^ 61)
     (plain : Array Nat) (bytes : Array UInt8) (n : Nat) (q : Params) :
     decompressBytes Est.estimate Chains.pred true d = .ok (plain, bytes, n, q) ↔
     decompressBytes Est.estimate Chains.pred false d = .ok (plain, bytes, n, q) :=
